@@ -46,6 +46,7 @@ type RMember struct {
 type RIDL struct {
 	Name    string
 	Members []RMember
+	deep    bool // thorough tier: records deviating in two fields, all call modes for every pair
 }
 
 func (d *RIDL) alias(n string) *RType {
@@ -180,6 +181,20 @@ func (d *RIDL) vectors(t *RType, depth int) []interface{} {
 			r := append(Rec(nil), def...)
 			r[i] = v
 			out = append(out, r)
+		}
+	}
+	if d.deep && depth == 0 {
+		// every record deviating from the default in two fields (first two alternatives of each)
+		for i := range per {
+			for j := i + 1; j < len(per); j++ {
+				for a := 1; a < len(per[i]) && a <= 2; a++ {
+					for b := 1; b < len(per[j]) && b <= 2; b++ {
+						r := append(Rec(nil), def...)
+						r[i], r[j] = per[i][a], per[j][b]
+						out = append(out, r)
+					}
+				}
+			}
 		}
 	}
 	// one record deviating everywhere
@@ -924,6 +939,9 @@ func (r *runner) runMethod(m *RMember) {
 	if len(pairs) > 1 {
 		sel = append(sel, pairs[len(pairs)-1])
 	}
+	if !r.quick {
+		sel = pairs
+	}
 	for _, p := range sel {
 		p := p
 		for k := 0; k <= 2; k++ {
@@ -1202,6 +1220,7 @@ func Main() {
 			rep.Missing = append(rep.Missing, key)
 			continue
 		}
+		sp.Tree.deep = !quick
 		r := &runner{rep: rep, spec: sp, d: sp.Tree, pkg: pkg, quick: quick}
 		func() {
 			defer func() {
